@@ -349,6 +349,7 @@ structure Field where
   ty : Ty
   dflt : Dflt
   noOutput : Bool := false
+  defer : Bool := false        -- `Field(defer_default=True)`: the default is not filled in by the parse
   ci : Bool := false         -- `setup_case_insensitive` (field.py:554-561): decided once, by the Options of the class that
                              -- *declares* the field; a subclass takes the field over as it is
   deriving Repr
@@ -377,6 +378,7 @@ for that parse, options.py:216-222); `mode` and `collect_errors` do not enter th
 structure ROpts where
   ignoreRequired : Bool := false       -- also implied by force_default (options.py:173-179)
   noDefault : Bool := false
+  deferDefault : Bool := false         -- Options(defer_default=True)
   force : Option Val := none           -- force_default
   dfs : Option Bool := none            -- data_first_search
   deriving Repr
@@ -426,6 +428,14 @@ def getDefault (ro : ROpts) (d : Dflt) : St → Option Val × St := fun s =>
   else match ro.force with
     | some a => (match copyValue a s with | (v, s1) => (some v, s1))       -- `copy_value(options.force_default)`
     | Option.none => getDefault0 d s
+
+/-- `get_default(options, defer)` — field.py `get_default`, the `defer` test before the default is looked up:
+the parse asks with `defer=False` and gets nothing for a deferred default; attribute access on a Schema instance asks with
+`defer=True` (schema.py `__field_getter__`) and gets nothing for a default that is *not* deferred. -/
+def getDefaultAt (defer fdefer : Bool) (ro : ROpts) (d : Dflt) : St → Option Val × St := fun s =>
+  if ro.noDefault then (Option.none, s)
+  else if (!defer && (fdefer || ro.deferDefault)) || (defer && !(fdefer || ro.deferDefault)) then (Option.none, s)
+  else getDefault ro d s
 
 /-! ### converters -/
 
@@ -595,7 +605,7 @@ def fieldsFF (rec : Ty → Val → Comp) (ro : ROpts) (keys : List String) (item
           -- `field.is_required(options)`: declared without default and the run does not say ignore_required
           if f.dflt.isNone && !ro.ignoreRequired then (.error .perr, s)       -- AbsenceError
           else
-          match getDefault ro f.dflt s with
+          match getDefaultAt false f.defer ro f.dflt s with
           | (Option.none, s1) => fieldsFF rec ro keys items fs s1          -- no default: the field stays absent
           | (some d, s1) =>
             match fieldsFF rec ro keys items fs s1 with
@@ -624,7 +634,7 @@ def defaultLoop (ro : ROpts) (have_ : List String) : List Field → St → Excep
       if have_.contains f.name then defaultLoop ro have_ fs s
       else if f.dflt.isNone && !ro.ignoreRequired then (.error .perr, s)     -- `field.is_required(options)`: AbsenceError
       else
-        match getDefault ro f.dflt s with
+        match getDefaultAt false f.defer ro f.dflt s with
         | (Option.none, s1) => defaultLoop ro have_ fs s1
         | (some d, s1) =>
           match defaultLoop ro have_ fs s1 with
@@ -841,10 +851,20 @@ def call := callWith effectiveOpts sel false {}
 /-! ### in-place mutation by the caller, `setattr`, `Schema.copy()` -/
 
 inductive Act where
-  | append (v : Val)               -- list.append(atom)
-  | add (v : Val)                  -- set.add(atom)
-  | setkey (k : String) (v : Val)  -- dict[k] = atom
+  | append (v : Val)               -- list.append(v)     (v: an atom or an object the caller holds)
+  | add (v : Val)                  -- set.add(v)
+  | setkey (k : String) (v : Val)  -- dict[k] = v
+  | clear                          -- list/set/dict .clear()
+  | popLast                        -- list.pop()
+  | delkey (k : String)            -- del dict[k]
   deriving Repr
+
+/-- the objects a caller's write puts into the target -/
+def Act.ids : Act → List Nat
+  | .append v => v.mutIds
+  | .add v => v.mutIds
+  | .setkey _ v => v.mutIds
+  | _ => []
 
 def setKV (k : String) (v : Val) : List String → List Val → List String × List Val
   | a :: as, x :: xs =>
@@ -863,6 +883,11 @@ def Act.apply (a : Act) (k : Kind) (ks : List String) (xs : List Val) : Option (
   | .append v, .list => some (ks, xs ++ [v])
   | .add v, .set => some (ks, if xs.any (fun w => v.veq w) then xs else xs ++ [v])
   | .setkey k v, .dict => some (setKV k v ks xs)
+  | .clear, .list => some ([], [])
+  | .clear, .set => some ([], [])
+  | .clear, .dict => some ([], [])
+  | .popLast, .list => some (ks, xs.dropLast)
+  | .delkey k, .dict => some (delKV k ks xs)
   | _, _ => Option.none
 
 mutual
@@ -971,6 +996,8 @@ inductive Op where
   | setattr (root : Nat) (field : String) (v : Val)
   /-- `roots[root].copy()` -/
   | copy (root : Nat)
+  /-- `roots[root].field` — attribute access; the value read becomes a root -/
+  | getattr (root : Nat) (field : String)
   deriving Repr
 
 inductive Outcome where
@@ -1018,6 +1045,39 @@ def World.procAfter (w : World) (target : Nat) : Proc :=
     { regCache := d.fields.map (fun f => (f.ty, w.proc.resolve f.ty)) ++ w.proc.regCache,
       resolved := if d.scoped w.env.length then target :: w.proc.resolved else w.proc.resolved }
 
+/-- what an instance holds under an attribute name: a Schema's item of that name, else the entry of `__dict__` -/
+def readAttr (isDict : Bool) (fname : String) (ks : List String) (xs : List Val) : Option Val :=
+  match (if isDict then lookupKV fname (ks.drop 1) (xs.drop 1) else Option.none) with
+  | some v => some v
+  | Option.none =>
+    match xs with
+    | .node _ .dict aks avs :: _ => lookupKV fname aks avs
+    | _ => Option.none
+
+/-- Attribute access on an instance.  Schema `__field_getter__` (schema.py): the item of that name, else the entry of
+`__dict__` (a no_output field), else the *deferred* default — `get_default(options, defer=True)`, copied anew on every
+access and not stored —, else AttributeError.  DataClass getter (cls.py `make_getter`): the entry of `__dict__`, else
+AttributeError.  (For an instance built under the class's own options.) -/
+def World.getattr (w : World) (r : Nat) (fname : String) : World × Outcome :=
+  let fail : World × Outcome := ({ w with roots := w.roots ++ [Option.none] }, .skip)
+  match w.root r with
+  | some (.node _ (.inst k b) ks xs) =>
+      match w.env[k]? with
+      | Option.none => fail
+      | some d =>
+        match d.fields.find? (fun f => f.name == fname) with
+        | Option.none => fail
+        | some f =>
+          match readAttr b fname ks xs with
+          | some v => ({ w with roots := w.roots ++ [some v] }, .ok)
+          | Option.none =>
+            if b then
+              match getDefaultAt true f.defer {} f.dflt { next := w.next } with
+              | (some v, s1) => ({ w with next := s1.next, roots := w.roots ++ [some v] }, .ok)
+              | (Option.none, _) => fail
+            else fail
+  | _ => fail
+
 def World.stepWith (cp : Val → Comp) (optsOf : List (Option Opts) → Nat → Opts) (w : World) : Op → World × Outcome
   | .declare d bump => ({ w with env := w.env ++ [d], next := w.next + bump }, .ok)
   | .call target wrapper bump input ro =>
@@ -1045,6 +1105,7 @@ def World.stepWith (cp : Val → Comp) (optsOf : List (Option Opts) → Nat → 
           | (.ok c, s1) => ({ w with next := s1.next, roots := w.roots ++ [some c] }, .ok)
           | (.error _, _) => ({ w with roots := w.roots ++ [Option.none] }, .skip)
       | Option.none => ({ w with roots := w.roots ++ [Option.none] }, .skip)
+  | .getattr r fname => w.getattr r fname
 
 def World.step := World.stepWith schemaCopy effectiveOpts
 
